@@ -188,9 +188,10 @@ func init() {
 	props["C03"].Also = []string{"w5", "w7"}
 	props["C03"].Real = append(props["C03"].Real, "20% of the runs: world w7 (real RTMP front-end: internal/servers/rtmp Server/listener/conn publish and read flows and internal/protocols/rtmp, real gortmplib on both ends of a simulated TCP network; every attachment seen between the server and the path manager must rest on an admission for that connection, path and action, and the admitted credentials must be those the client at that address sent)")
 	props["C03"].LevelNote = strings.Replace(props["C03"].LevelNote, "the per-protocol session code is not covered", "of the per-protocol session code, HLS (w5) and RTMP (w7) are covered; RTSP, SRT, WebRTC and MoQ sessions are not", 1)
-	props["C20"].Also = []string{"w7"}
-	props["C20"].Real = append(props["C20"].Real, "40% of the runs: world w7 (real RTMP connections: runOnConnect/runOnDisconnect per connection and runOnRead/runOnUnread per reading connection, observed where the hook closures announce themselves; every announced command must have been executed when the server has shut down)")
-	props["C20"].LevelNote = strings.Replace(props["C20"].LevelNote, "the per-protocol session code is not covered", "runOnRead/runOnUnread and runOnConnect/runOnDisconnect are decided across real RTMP connections (w7) only; RTSP, SRT, WebRTC, MoQ sessions are not covered", 1)
+	props["C20"].Also = []string{"w7", "w5"}
+	props["C20"].Real = append(props["C20"].Real, "20% of the runs: world w5 (real HLS sessions: runOnRead/runOnUnread per session, across session expiry, muxer destruction, failure of the muxer instance and shutdown)")
+	props["C20"].Real = append(props["C20"].Real, "20% of the runs: world w7 (real RTMP connections: runOnConnect/runOnDisconnect per connection and runOnRead/runOnUnread per reading connection, observed where the hook closures announce themselves; every announced command must have been executed when the server has shut down)")
+	props["C20"].LevelNote = strings.Replace(props["C20"].LevelNote, "the per-protocol session code is not covered", "runOnRead/runOnUnread and runOnConnect/runOnDisconnect are decided across real RTMP connections (w7) and real HLS sessions (w5); RTSP, SRT, WebRTC, MoQ sessions are not covered", 1)
 	props["C03"].Real = append(props["C03"].Real, "40% of the runs: world w5 (real HLS server: the session code that turns an HTTP request into a reader of a path, judged against the recorded decisions of the authentication manager)")
 	props["C40"].Real = append(props["C40"].Real, "13% of the runs each: world w2 (real Core with concurrent API configuration edits and reads, path manager, configuration watcher, record cleaner), world w3 (recorder, playback list/get handlers with their parsing goroutines, record store) and world w7 (real RTMP server with real gortmplib clients publishing and reading, API list and kick of live connections, shutdown with connections open), all built with the race detector")
 	props["C40"].LevelNote += "; metrics scrapes over HTTP are outside; of the real session kick paths only RTMP's is exercised (w7), the other front-ends are stubs; data races are those the Go race detector reports under the explored schedules"
